@@ -27,7 +27,7 @@ import mergecommon as mc
 ID = 'C12'
 TITLE = 'A tar-packed feature store equals its directory form; appends are durable'
 GEN = []
-RULE = ('kill cases: an append history of n <= 6 (quick) / 20 (thorough) arrays over 1..4 names (overwrites), random shapes incl. '
+RULE = ('kill cases: an append history of n <= 6 (quick) / 20 (thorough) arrays over 1..4 names (overwrites, half of them with the same shape as the array they replace), random shapes incl. '
         'empty arrays and data crossing the 512-byte block size, a writer subprocess SIGKILLed after the k-th completed append for '
         'each k in 0..n; store cases: generated datasets with several feature types, image names with nested folders, packed kind '
         'by kind. distinct non-trivial = distinct (history, k) with k >= 1, and distinct stores')
@@ -65,13 +65,19 @@ def gen_history(rng, nmax):
     n = rng.randint(1, nmax)
     names = ['img%d.jpg.kpt' % i for i in range(rng.randint(1, 4))] + ['dir/sub/x.png.kpt']
     out = []
+    last_shape = {}
     for _ in range(n):
+        name = rng.choice(names)
         cols = rng.choice([1, 2, 4, 128])
         rows = rng.choice([0, 1, 3, 4, 5, 130])
         if rows * cols > 2000:
             rows = 2000 // cols
+        if name in last_shape and rng.random() < 0.5:
+            # re-extraction of the same image: the SAME shape (same byte size) under the same name, other values
+            rows, cols = last_shape[name]
+        last_shape[name] = (rows, cols)
         data = [rng.randrange(256) for _ in range(rows * cols)]
-        out.append([rng.choice(names), data, cols if rows else 0, rng.choice(['C', 'C', 'F', 'F', 'S'])])
+        out.append([name, data, cols if rows else 0, rng.choice(['C', 'C', 'F', 'F', 'S'])])
     return out
 
 
